@@ -20,7 +20,13 @@ import (
 	"verif/lib/mc"
 )
 
-const Root = "/verif"
+// Root is the verification directory (run.sh exports VERIF_ROOT; default /verif).
+var Root = func() string {
+	if r := os.Getenv("VERIF_ROOT"); r != "" {
+		return r
+	}
+	return "/verif"
+}()
 
 // Finding is one entry of known_findings.json.
 type Finding struct {
